@@ -410,8 +410,20 @@ class HistoryGen:
                           for _ in range(nt))
             self.tcount += 1
             # a task id is any hashable: usually a string, sometimes the reference of the (first) target
-            return ("regf", "t%d%s" % (self.tcount, self.cfg["salt"]), deps, targets, coefs, bool(targets) and rng.random() < 0.3,
-                    rng.random() < 0.3)      # last flag: targets/dependencies handed over as lists (with repeated entries) instead of sets
+            reftid = bool(targets) and rng.random() < 0.3
+            via_ref = bool(self.cfg.get("ft_via_ref")) and bool(targets) and not reftid and rng.random() < 0.5
+            if via_ref:
+                # an action that assigns through references re-triggers whatever depends on its targets or on a container
+                # enclosing them: it must not (be declared to) depend on such a container itself - endless recursion otherwise
+                dd, tt = set(), set()
+                for d in deps:
+                    dd.update(m.pfx(d))
+                for t in targets:
+                    tt.update(m.pfx(t))
+                if dd & tt:
+                    via_ref = False
+            return ("regf", "t%d%s" % (self.tcount, self.cfg["salt"]), deps, targets, coefs, reftid,
+                    rng.random() < 0.3, via_ref)      # last flag: targets/dependencies handed over as lists (with repeated entries) instead of sets
         if kind == "unregf":
             if not m.ftasks:
                 return None
